@@ -851,7 +851,8 @@ def r116(rep: Report, ctx: Ctx) -> None:
     check_table(rep, ctx, "R1.18", TABLE,
                 ["LogicBlockHolder._check_merge_is_correct",
                  "LogicBlockHolder.handle_path_merge",
-                 "check_is_merge_node_for_logic_block"])
+                 "check_is_merge_node_for_logic_block",
+                 "check_has_valid_merge"])
     # (shared with C04 R4.1)  a loaded event without a gate tree has no
     # outgoing logic: the walk follows one successor and the diagram rejects
     # the jobs the model was learned from
